@@ -106,8 +106,10 @@ def stats(hists):
 
 def run(ctx):
     import eng_gate
+    import eng_tree
 
     ctx.level = "model_checking"
+    tree0 = eng_tree.tree_state()
     # 0. model Init: the gate is closed in a fresh interpreter
     d = eng_gate.default_flag_fresh_process()
     if d != "False":
@@ -147,18 +149,23 @@ def run(ctx):
     nsim = ctx.pick(1000, 20000)
     r, hists = tlc_histories(ctx, "Gate_sim.cfg", simulate=f"num={nsim // 3 + 1}", depth=80, seed=ctx.seed + 1,
                              heap="4g")
+    eng_tree.count_sim_states(ctx, r)
     uniq = sorted({json.dumps(h) for h in hists})
     random.Random(ctx.seed).shuffle(uniq)
     sim = [json.loads(s) for s in uniq[:nsim]]
     consume(sim)
     ctx.log(f"simulation: {len(hists)} emitted, {len(uniq)} distinct, {len(sim)} replayed")
 
+    eng_tree.require_unchanged(tree0)
     # vacuity: every probe program must have been checked under both flag values, exits after which the flag differs
     # from the value inside the block must exist, so must exceptional exits and depth-3 nesting
     want = {(p, f) for p in eng_gate.PROGRAMS for f in "TF"}
     if want - total["check_cells"] or not (total["exc_exits"] and total["depth3"] and total["restore_changes_flag"]):
         raise lib.Machinery(f"vacuous enumeration: {total}")
 
+    mach = [b for b in allbad if b[3] and "machinery" in str(b[3][3] if isinstance(b[3], list) else b[3])]
+    if mach:
+        raise lib.Machinery(f"source files unreadable during replay (tree modified concurrently?): {mach[0]}")
     groups = {}
     for h, step, exp, obs in allbad:
         groups.setdefault(classify(h, step, exp, obs), []).append((h, step, exp, obs))
